@@ -509,8 +509,18 @@ fn serialise_router_advertisement(a: &RtrAdvertisement) -> Vec<u8> {
                 while (b.len() + 2) % 8 != 0 {
                     b.push(0x00_u8);
                 }
+                /* The length octet counts units of 8 octets and must not wrap, and the URL
+                 * ends at the first NUL of the padding.
+                 */
+                let units = match u8::try_from(1 + b.len() / 8) {
+                    Ok(units) if !url.contains('\0') => units,
+                    _ => {
+                        log::warn!("Not advertising captive portal URL of {} octets", url.len());
+                        continue;
+                    }
+                };
                 v.serialise(CAPTIVE_PORTAL.0);
-                v.serialise((1 + b.len() / 8) as u8);
+                v.serialise(units);
                 v.serialise(&b);
             }
         }
